@@ -289,6 +289,9 @@ type Conn struct {
 	closed bool
 	ops    []Op
 	LogOps bool
+	// OnWrite, when set, is called after every Write with the cumulative number of bytes written
+	// by this end (time-stamping of writes on the simulated clock).
+	OnWrite func(cum int64)
 }
 
 func (c *Conn) logOp(kind string, n int) {
@@ -319,6 +322,12 @@ func (c *Conn) Read(b []byte) (int, error) {
 func (c *Conn) Write(b []byte) (int, error) {
 	c.logOp("write", len(b))
 	n, err := c.wr.write(b)
+	if f := c.OnWrite; f != nil && n > 0 {
+		c.wr.mu.Lock()
+		cum := c.wr.nWritten
+		c.wr.mu.Unlock()
+		f(cum)
+	}
 	if err == net.ErrClosed {
 		err = &net.OpError{Op: "write", Net: "tcp", Source: c.local, Addr: c.remote, Err: net.ErrClosed}
 	}
